@@ -339,6 +339,25 @@ func (p *Prog) keyOf1(v ssa.Value, env *KeyEnv, depth int, busy map[ssa.Value]bo
 	case *ssa.MakeInterface:
 		return p.keyOf(x.X, env, depth+1, busy)
 	case *ssa.Phi:
+		// a loop-carried append chain over the elements of a list: key = init ++ every element of the list
+		{
+			var init []ssa.Value
+			var loopOps []ssa.Value
+			for _, e := range x.Edges {
+				if ops, ok := appendChainTo(e, x); ok {
+					loopOps = append(loopOps, ops...)
+				} else {
+					init = append(init, e)
+				}
+			}
+			if len(loopOps) == 1 && len(init) == 1 {
+				if list, ok := rangeElement(loopOps[0]); ok {
+					if ks, ok := p.segList(list, env, depth+1, busy); ok {
+						return concatKeys(append([]*Key{p.keyOf(init[0], env, depth+1, busy)}, ks...)...)
+					}
+				}
+			}
+		}
 		var first *Key
 		for _, e := range x.Edges {
 			k := p.keyOf(e, env, depth+1, busy)
